@@ -1,8 +1,9 @@
 (* Model/Mlir.v — the logic of the MLIR backend (sparse/mlir_backend): definitions only.
 
-   A. storage formats and `formats._determine_format` (hand transcription, same branch structure;
-      tied to the source by correspondence on generated format lists, and by the call-site
-      keywords extracted into Gen/S_mlir.v);
+   A. storage formats and `formats._determine_format` (same branch structure; its scalar decisions are
+      translated from the source into Gen/S_mlir_df.v and proved equal to the sub-expressions used here
+      (determine_format_source_tie), its other statements are pinned by text in tools/sitegen/mlir.py;
+      also tied by correspondence on generated format lists and by the extracted call-site keywords);
    B. the meaning of constituent arrays (MLIR sparse_tensor level storage: dense / compressed /
       singleton levels under a dimension order) and the array orders `_from_scipy`, `to_scipy`,
       `_from_numpy` use (orders are the extracted site lists), `to_numpy`'s order inversion;
@@ -62,9 +63,12 @@ Definition lv_dense := mkLevel LDense 0.
 Definition lv_compressed := mkLevel LCompressed 0.
 
 (* _get_sparse_dense_levels(n_sparse=, ndim=) ; the asserts raise AssertionError (OtherError) *)
+(* the three asserts (Gen/S_mlir_df.v: g_gsdl_ok) *)
+Definition gsdl_ok (ndim n_dense n_sparse : Z) : bool := (0 <=? ndim) && (0 <=? n_dense) && (0 <=? n_sparse).
+
 Definition get_sparse_dense_levels (n_sparse ndim : Z) : res (list level) :=
-  let n_dense := ndim - n_sparse in
-  if (0 <=? ndim) && (0 <=? n_dense) && (0 <=? n_sparse)
+  let n_dense := ndim - n_sparse in            (* g_gsdl_fill with n_dense=None *)
+  if gsdl_ok ndim n_dense n_sparse
   then Ok (repeat lv_dense (Z.to_nat n_dense) ++ repeat lv_compressed (Z.to_nat n_sparse))
   else Raise OtherError.
 
@@ -77,6 +81,12 @@ Definition order_step (acc : option (list Z)) (fo : list Z) : option (list Z) :=
     else if negb (zl_eqb (firstn (length fo) o) fo) then None
     else Some o
   end.
+
+(* `if out_ndim < n_counted: n_counted = out_ndim` ; `n_sparse = n_counted if not union else out_ndim - n_counted`
+   (Gen/S_mlir_df.v: g_df_nsparse) *)
+Definition df_nsparse (n nc : Z) (union : bool) : Z :=
+  let nc' := if n <? nc then n else nc in
+  if union then n - nc' else nc'.
 
 Definition determine_format (fmts : list cformat) (union : bool) (out_ndim : option nat) : res cformat :=
   match fmts with
@@ -95,8 +105,7 @@ Definition determine_format (fmts : list cformat) (union : bool) (out_ndim : opt
                   | None => None
                   | Some o => Some (firstn n (o ++ zseq (length o) (n - length o)))
                   end in
-    let n_counted' := if Z.of_nat n <? n_counted then Z.of_nat n else n_counted in
-    let n_sparse := if union then Z.of_nat n - n_counted' else n_counted' in
+    let n_sparse := df_nsparse (Z.of_nat n) n_counted union in
     lv <- get_sparse_dense_levels n_sparse (Z.of_nat n) ;;
     get_concrete_format lv order' pos crd
   end.
@@ -184,6 +193,22 @@ Section Layout.
                            (zrange2 (nthZ indptr j) (nthZ indptr (j + 1)))) (zrange ncols).
   Definition coo_entries (nnz : Z) (row col : list Z) (data : list V) : list (idx * V) :=
     map (fun k => ([nthZ row k; nthZ col k], nthd data k)) (zrange nnz).
+  (* CSF (dense, compressed, ..., compressed), identity order: the nested-loop meaning (the format of
+     test_csf_format): row i owns the fibres k1 in [pos1[i], pos1[i+1]), fibre k1 owns k2 in [pos2[k1], pos2[k1+1]) ... *)
+  Definition csf3_entries (n0 : Z) (pos1 crd1 pos2 crd2 : list Z) (data : list V) : list (idx * V) :=
+    flat_map (fun i =>
+      flat_map (fun k1 =>
+        map (fun k2 => ([i; nthZ crd1 k1; nthZ crd2 k2], nthd data k2))
+            (zrange2 (nthZ pos2 k1) (nthZ pos2 (k1 + 1))))
+        (zrange2 (nthZ pos1 i) (nthZ pos1 (i + 1)))) (zrange n0).
+  Definition csf4_entries (n0 : Z) (pos1 crd1 pos2 crd2 pos3 crd3 : list Z) (data : list V) : list (idx * V) :=
+    flat_map (fun i =>
+      flat_map (fun k1 =>
+        flat_map (fun k2 =>
+          map (fun k3 => ([i; nthZ crd1 k1; nthZ crd2 k2; nthZ crd3 k3], nthd data k3))
+              (zrange2 (nthZ pos3 k2) (nthZ pos3 (k2 + 1))))
+          (zrange2 (nthZ pos2 k1) (nthZ pos2 (k1 + 1))))
+        (zrange2 (nthZ pos1 i) (nthZ pos1 (i + 1)))) (zrange n0).
   (* NumPy's meaning of a C-contiguous array *)
   Definition dense_entries (sh : shape) (flat : list V) : list (idx * V) :=
     map (fun ix => (ix, nthd flat (ravel sh ix))) (all_indices sh).
@@ -194,6 +219,8 @@ Arguments storage_entries {V}.
 Arguments csr_entries {V}.
 Arguments csc_entries {V}.
 Arguments coo_entries {V}.
+Arguments csf3_entries {V}.
+Arguments csf4_entries {V}.
 Arguments dense_entries {V}.
 
 (* array names used by the extractor: 0 indptr, 1 indices, 2 data, 3 pos, 4 row, 5 col, 9 `_` *)
@@ -261,8 +288,13 @@ Definition perms_upto (n : nat) : list (list Z) :=
 (* ------------------------------------------------------------------------------------------ *)
 (* C. ownership protocol                                                                       *)
 
-Inductive kind := KNumpy | KStorage | KArray | KView.
-Definition is_ndarray (k : kind) : bool := match k with KNumpy | KView => true | _ => false end.
+(* KView: a NumPy view whose chain of bases leads to the object carrying the `_hold_ref` finaliser (or to
+   the owning ndarray); KWrapView: the array ranked_memref_to_numpy returns for a wrapped dtype — it carries
+   the finaliser but is itself `inner.view(dtype)`; KBareView: a view whose recorded base is that `inner`
+   array (NumPy collapsed the chain past the KWrapView), which keeps nothing alive *)
+Inductive kind := KNumpy | KStorage | KArray | KView | KWrapView | KBareView.
+Definition is_ndarray (k : kind) : bool :=
+  match k with KNumpy | KView | KWrapView | KBareView => true | _ => false end.
 Definition is_array (k : kind) : bool := match k with KArray => true | _ => false end.
 
 (* o_refs: strong references this object holds (keeps alive); o_bufs: buffers it reads when used;
@@ -328,7 +360,12 @@ Inductive event :=
 | EWrap (sid : nat)                          (* Array(storage=...) over a held storage *)
 | EAlias (r : nat)                           (* one more reference to a held object (asformat, same format) *)
 | EGetView (a : nat) (k : nat)               (* the k-th array of a.get_constituent_arrays() *)
-| EDerive (v : nat)                          (* a NumPy view of a held ndarray (reshape/transpose/slice) *)
+| EDerive (v : nat)                          (* a NumPy view of a held ndarray (reshape/transpose/slice) whose
+                                                base chain keeps v's anchor: v is an owning ndarray, a plain
+                                                memref view, or a view of those *)
+| ECollapse (v : nat)                        (* a NumPy view of a held WRAPPED memref view: NumPy sets the new
+                                                view's base to v.base (the inner array), skipping v and with it
+                                                the _hold_ref finaliser *)
 | EDel (i : nat)                             (* drop the i-th held reference *)
 | ECollect (K : list nat).                   (* the collector destroys the objects K *)
 
@@ -348,7 +385,8 @@ Definition is_storage (k : kind) : bool := match k with KStorage => true | _ => 
      from_constituent_arrays(arrays)  = EFromArrays; EWrap; EDel (the storage local)
      add/asformat/reshape             = EOp; EWrap; EDel (the storage local)
      get_constituent_arrays()         = EGetView a 0; ...; EGetView a (k-1)
-     to_numpy(a)                      = EGetView a 0; EDerive v; EDel (the local `data`)
+     to_numpy(a)                      = EGetView a 0; EDerive v (plain dtype) | ECollapse v (complex64/128,
+                                        float16); EDel (the local `data`)
    The theorems quantify over arbitrary event lists, which include these. *)
 Definition step (c : cfg) (s : state) (e : event) : state :=
   let n := nobj s in
@@ -378,19 +416,27 @@ Definition step (c : cfg) (s : state) (e : event) : state :=
       match o_under (get s a), nth_error (o_bufs (get s a)) k with
       | Some sid, Some b =>
         let hold := if c_view_storage c then [sid] else [] in
-        if c_wrapped c then
-          (* np.ctypeslib array `inner`, then `inner.view(dtype)`: the finaliser sits on the outer one *)
-          push_objs s [mkObj KView [] [b] [] None; mkObj KView (n :: hold) [b] [] (Some n)] (S n) 0
-        else
-          push_objs s [mkObj KView hold [b] [] None] n 0
+        push_objs s [mkObj (if c_wrapped c then KWrapView else KView) hold [b] [] None] n 0
       | _, _ => s
       end
     else s
   | EDerive v =>
-    if rootb s v && liveb s v && is_ndarray (o_kind (get s v)) then
-      (* NumPy collapses the base chain: the new view's base is v's base when that is an ndarray *)
-      let t := match o_under (get s v) with Some t => t | None => v end in
-      push_objs s [mkObj KView [t] (o_bufs (get s t)) [] (Some t)] n 0
+    if rootb s v && liveb s v then
+      match o_kind (get s v) with
+      | KNumpy | KView =>
+        (* NumPy collapses the base chain: the new view's base is v's base when that is an ndarray *)
+        let t := match o_under (get s v) with Some t => t | None => v end in
+        push_objs s [mkObj KView [t] (o_bufs (get s t)) [] (Some t)] n 0
+      | KBareView => push_objs s [mkObj KBareView [] (o_bufs (get s v)) [] None] n 0
+      | _ => s
+      end
+    else s
+  | ECollapse v =>
+    if c_wrapped c && rootb s v && liveb s v then
+      match o_kind (get s v) with
+      | KWrapView => push_objs s [mkObj KBareView [] (o_bufs (get s v)) [] None] n 0
+      | _ => s
+      end
     else s
   | EDel i => mkSt (s_objs s) (s_dead s) (remove_nth i (s_roots s)) (s_nbuf s) (s_freed s)
   | ECollect K =>
@@ -408,3 +454,6 @@ Definition danglingb (s : state) (i : nat) : bool :=
   liveb s i && existsb (fun b => memn b (s_freed s)) (o_bufs (get s i)).
 Definition safeb (s : state) : bool := forallb (fun i => negb (danglingb s i)) (seq 0 (nobj s)).
 Definition free_once (s : state) : bool := nodupn (s_freed s).
+
+Definition is_collapse (e : event) : bool := match e with ECollapse _ => true | _ => false end.
+Definition no_collapse (h : list event) : bool := forallb (fun e => negb (is_collapse e)) h.
